@@ -71,6 +71,25 @@ def staticTransform {α β} (srcMap dstMap : Layout) (src : Nat → α) (dst : N
 def staticTransform2 {α β γ} (m1 m2 dstMap : Layout) (p1 : Nat → α) (p2 : Nat → β) (dst : Nat → γ) (f : α → β → γ) : Nat → γ :=
   (List.range dstMap.length).foldl (fun d s => upd d (dstMap.phys s) (f (semanticAt m1 p1 s) (semanticAt m2 p2 s))) dst
 
+/-- ALIASED destination: `static_transform(src1, src2, dst, op)` where `dst` is one of the sources (or both): the S-th step
+    `semantic_at_c<S>(dst) = op(semantic_at_c<S>(src1), semantic_at_c<S>(src2))` reads the CURRENT content of the object it
+    writes.  `g s x` = the new value of colour `s` given the current value `x` of that colour in the destination object. -/
+def staticUpdateInPlace {α} (m : Layout) (acc : Nat → α) (g : Nat → α → α) : Nat → α :=
+  (List.range m.length).foldl (fun d s => upd d (m.phys s) (g s (semanticAt m d s))) acc
+
+/-- `static_transform(acc, p2, acc, f)`: the destination IS the first source -/
+def staticTransform2Acc1 {α β} (m1 m2 : Layout) (acc : Nat → α) (p2 : Nat → β) (f : α → β → α) : Nat → α :=
+  staticUpdateInPlace m1 acc (fun s x => f x (semanticAt m2 p2 s))
+/-- `static_transform(p1, acc, acc, f)`: the destination IS the second source -/
+def staticTransform2Acc2 {α β} (m1 m2 : Layout) (p1 : Nat → α) (acc : Nat → β) (f : α → β → β) : Nat → β :=
+  staticUpdateInPlace m2 acc (fun s x => f (semanticAt m1 p1 s) x)
+/-- `static_transform(acc, acc, acc, f)`: one object in all three places -/
+def staticTransform2Self {α} (m : Layout) (acc : Nat → α) (f : α → α → α) : Nat → α :=
+  staticUpdateInPlace m acc (fun _ x => f x x)
+
+/-- `static_for_each(p1, p2, p3, op)`: the triples of memory indices handed to `op` -/
+def visitTriples (m1 m2 m3 : Layout) : List (Nat × Nat × Nat) := (List.range m1.length).map (fun s => (m1.phys s, m2.phys s, m3.phys s))
+
 /-- `static_min` / `static_max` (`min_max_recur`): fold over S = 0..N-1 with `mutable_min(x,y) = x<y ? x : y`
     and `mutable_max(x,y) = x<y ? y : x`; returns the MEMORY index of the selected channel -/
 def staticMinIdx (m : Layout) (p : Nat → Int) : Nat :=
